@@ -529,6 +529,8 @@ impl ContinuityStore {
                                 .count();
 
                             if tail.complete || message_count >= RECENT_MESSAGES_V1_LIMIT {
+                                #[cfg(rip_verif)]
+                                rip_kernel::verif::point("path.compile_input.tail");
                                 return Ok(ContextCompileInput {
                                     continuity_events: tail.events,
                                     from_seq: from_seq.max(message_seq),
@@ -560,6 +562,8 @@ impl ContinuityStore {
             anchor_message_id,
             RECENT_MESSAGES_V1_LIMIT,
         ) {
+            #[cfg(rip_verif)]
+            rip_kernel::verif::point("path.compile_input.window");
             return Ok(ContextCompileInput {
                 continuity_events: window.events,
                 from_seq: window.from_seq,
@@ -568,6 +572,8 @@ impl ContinuityStore {
         }
 
         // Fall back to full replay when caches are missing/invalid.
+        #[cfg(rip_verif)]
+        rip_kernel::verif::point("path.compile_input.replay");
         let continuity_events = self
             .replay_events(continuity_id)
             .map_err(|err| format!("continuity replay failed: {err}"))?;
